@@ -33,6 +33,7 @@ fn c10_letters(tier: Tier) -> Vec<Op> {
         Op::WriteAt(1, 0, 0, Std),
         Op::WriteAt(0, 0, 1, Tokio),
         Op::Append(0),
+        Op::AppendRing(0),
         Op::SetLen(0, 0),
         Op::SetLen(0, 1),
         Op::SetLen(0, 4),
